@@ -411,4 +411,702 @@ Section WithNorm.
   Lemma kinds_disjoint_run ordered reqs m :
     kinds_disjoint_inv m -> kinds_disjoint_inv (fst (run norm ordered m reqs)).
   Proof. apply shape_invariant_run. exact kinds_disjoint_shape. Qed.
+
+  (* ---------------------------------------------------------------- *)
+  (* removed ids                                                        *)
+
+  Definition removed_disjoint_inv (m : membership) : Prop :=
+    forall id, rmem id (m_removed m)
+               && (amem id (m_addresses m) || amem id (m_nonvotings m) || amem id (m_witnesses m)) = false.
+
+  Lemma removed_disjoint_shape m c i m' :
+    removed_disjoint_inv m -> applied_shape m c i m' -> removed_disjoint_inv m'.
+  Proof.
+    intros Hinv Hs id. specialize (Hinv id).
+    destruct Hs as [Ht Hf Hfa ->|oa Ht HA HN HE HW HR ->|Ht Hf Hfa ->|Ht Hf Hfa ->|Ht Hd ->];
+      cbn [m_addresses m_nonvotings m_witnesses m_removed];
+      try unfresh Hf;
+      rewrite ?amem_ainsert, ?amem_adelete, ?rmem_radd.
+    - bool_crush.
+    - bool_crush.
+    - bool_crush.
+    - bool_crush.
+    - revert Hinv. bool_crush.
+  Qed.
+
+  Lemma removed_monotone_shape m c i m' id :
+    applied_shape m c i m' -> rmem id (m_removed m) = true -> rmem id (m_removed m') = true.
+  Proof.
+    intros Hs H.
+    destruct Hs as [Ht Hf Hfa ->|oa Ht HA HN HE HW HR ->|Ht Hf Hfa ->|Ht Hf Hfa ->|Ht Hd ->];
+      cbn [m_removed]; auto.
+    rewrite rmem_radd, H. apply orb_true_r.
+  Qed.
+
+  Lemma kind_of_none m id :
+    kind_of m id = None <->
+    amem id (m_addresses m) = false /\ amem id (m_nonvotings m) = false /\ amem id (m_witnesses m) = false.
+  Proof.
+    unfold kind_of.
+    destruct (amem id (m_addresses m)), (amem id (m_nonvotings m)), (amem id (m_witnesses m));
+      intuition discriminate.
+  Qed.
+
+  Lemma removed_disjoint_kind m id :
+    removed_disjoint_inv m -> rmem id (m_removed m) = true -> kind_of m id = None.
+  Proof.
+    intros Hinv H. specialize (Hinv id). rewrite H in Hinv. cbn in Hinv.
+    apply kind_of_none. apply orb_false_iff in Hinv. destruct Hinv as [Hinv ?].
+    apply orb_false_iff in Hinv. tauto.
+  Qed.
+
+  Lemma removed_disjoint_and_permanent_proved ordered reqs m :
+    removed_disjoint_inv m ->
+    removed_disjoint_inv (fst (run norm ordered m reqs)) /\
+    forall id, rmem id (m_removed m) = true ->
+               rmem id (m_removed (fst (run norm ordered m reqs))) = true /\
+               kind_of (fst (run norm ordered m reqs)) id = None.
+  Proof.
+    intros Hinv.
+    assert (Hfin : removed_disjoint_inv (fst (run norm ordered m reqs))).
+    { revert m Hinv. apply shape_invariant_run. exact removed_disjoint_shape. }
+    split; [exact Hfin|]. intros id Hid.
+    assert (Hr : rmem id (m_removed (fst (run norm ordered m reqs))) = true).
+    { clear Hinv Hfin. revert m Hid.
+      apply (shape_invariant_run (fun m => rmem id (m_removed m) = true)).
+      intros m0 c i m' H Hs. eapply removed_monotone_shape; eauto. }
+    split; [exact Hr|]. apply removed_disjoint_kind; assumption.
+  Qed.
+
+  (* the reject branch always finds a reason *)
+  Lemma reject_reason_some ordered m c :
+    accepted norm ordered m c = false -> exists r, reject_reason norm ordered m c = Some r.
+  Proof.
+    unfold accepted, reject_reason.
+    destruct (is_up_to_date ordered m c); cbn [negb andb]; [|eauto].
+    destruct (is_add_removed_node m c); cbn [negb andb]; [eauto|].
+    destruct (is_add_existing_member norm m c); cbn [negb andb]; [eauto|].
+    destruct (is_add_node_as_non_voting m c); cbn [negb andb]; [eauto|].
+    destruct (is_add_node_as_witness m c); cbn [negb andb]; [eauto|].
+    destruct (is_add_witness_as_node m c); cbn [negb andb]; [eauto|].
+    destruct (is_add_witness_as_non_voting m c); cbn [negb andb]; [eauto|].
+    destruct (is_add_non_voting_as_witness m c); cbn [negb andb]; [eauto|].
+    destruct (is_delete_only_node m c); cbn [negb andb]; [eauto|].
+    destruct (is_invalid_non_voting_promotion norm m c); cbn [negb andb]; [eauto|].
+    discriminate.
+  Qed.
+
+  Lemma not_accepted_rejected ordered m c i :
+    accepted norm ordered m c = false -> step norm ordered m (c, i) = (m, VRejected).
+  Proof.
+    intros H. unfold step, handle. cbn [fst snd]. rewrite H.
+    destruct (reject_reason_some _ _ _ H) as [r ->]. reflexivity.
+  Qed.
+
+  Lemma accepted_false_by ordered m c :
+    is_up_to_date ordered m c = false \/ is_add_removed_node m c = true \/
+    is_add_existing_member norm m c = true \/ is_add_node_as_non_voting m c = true \/
+    is_add_node_as_witness m c = true \/ is_add_witness_as_node m c = true \/
+    is_add_witness_as_non_voting m c = true \/ is_add_non_voting_as_witness m c = true \/
+    is_delete_only_node m c = true \/ is_invalid_non_voting_promotion norm m c = true ->
+    accepted norm ordered m c = false.
+  Proof.
+    intros H. destruct (accepted norm ordered m c) eqn:E; [|reflexivity].
+    apply accepted_true in E.
+    destruct E as (? & ? & ? & ? & ? & ? & ? & ? & ? & ?).
+    repeat (destruct H as [H|H]; [congruence|]). congruence.
+  Qed.
+
+  Lemma removed_id_add_rejected_proved ordered m c i :
+    rmem (cc_replica c) (m_removed m) = true -> is_add_type (cc_type c) = true ->
+    step norm ordered m (c, i) = (m, VRejected).
+  Proof.
+    intros H Ht. apply not_accepted_rejected. apply accepted_false_by.
+    right; left. unfold is_add_removed_node. rewrite Ht. exact H.
+  Qed.
+
+  (* ---------------------------------------------------------------- *)
+  (* the last voting member                                             *)
+
+  Definition voters_inv (m : membership) : Prop :=
+    nodup_keys (m_addresses m) /\ m_addresses m <> [].
+
+  Lemma voters_shape m c i m' : voters_inv m -> applied_shape m c i m' -> voters_inv m'.
+  Proof.
+    intros [Hnd Hne] Hs.
+    destruct Hs as [Ht Hf Hfa ->|oa Ht HA HN HE HW HR ->|Ht Hf Hfa ->|Ht Hf Hfa ->|Ht Hd ->];
+      unfold voters_inv; cbn [m_addresses].
+    - split; [apply nodup_keys_ainsert, Hnd|unfold ainsert; discriminate].
+    - split; [apply nodup_keys_ainsert, Hnd|unfold ainsert; discriminate].
+    - auto.
+    - auto.
+    - split; [apply nodup_keys_adelete, Hnd|].
+      destruct (amem (cc_replica c) (m_addresses m)) eqn:E.
+      + pose proof (length_adelete_mem _ _ Hnd E) as Hlen.
+        assert (Hl1 : alen (m_addresses m) <> 1) by (intros H1; specialize (Hd H1); congruence).
+        unfold alen, nlen in Hl1.
+        destruct (adelete (cc_replica c) (m_addresses m)); [|discriminate].
+        cbn in Hlen. rewrite <- Hlen in Hl1. cbn in Hl1. congruence.
+      + rewrite amem_false_adelete by exact E. exact Hne.
+  Qed.
+
+  Lemma last_voter_not_removable_proved ordered reqs m :
+    voters_inv m -> voters_inv (fst (run norm ordered m reqs)).
+  Proof. apply shape_invariant_run. exact voters_shape. Qed.
+
+  Lemma remove_last_voter_rejected_proved ordered m c i :
+    alen (m_addresses m) = 1 -> amem (cc_replica c) (m_addresses m) = true ->
+    cc_type c = cc_remove_node ->
+    step norm ordered m (c, i) = (m, VRejected).
+  Proof.
+    intros Hl Hm Ht. apply not_accepted_rejected. apply accepted_false_by.
+    do 8 right. left. unfold is_delete_only_node.
+    destruct (tests_remove_node _ Ht) as (_ & -> & _ & _).
+    rewrite Hl. cbn. exact Hm.
+  Qed.
+
+  (* ---------------------------------------------------------------- *)
+  (* nodup of all three maps (the Go maps have unique keys by construction) *)
+
+  Definition nodup_inv (m : membership) : Prop :=
+    nodup_keys (m_addresses m) /\ nodup_keys (m_nonvotings m) /\ nodup_keys (m_witnesses m).
+
+  Lemma nodup_shape m c i m' : nodup_inv m -> applied_shape m c i m' -> nodup_inv m'.
+  Proof.
+    intros (HA & HN & HW) Hs.
+    destruct Hs as [Ht Hf Hfa ->|oa Ht HA' HN' HE HW' HR ->|Ht Hf Hfa ->|Ht Hf Hfa ->|Ht Hd ->];
+      unfold nodup_inv; cbn [m_addresses m_nonvotings m_witnesses];
+      repeat split; auto using nodup_keys_ainsert, nodup_keys_adelete.
+  Qed.
+
+  Lemma nodup_run ordered reqs m : nodup_inv m -> nodup_inv (fst (run norm ordered m reqs)).
+  Proof. apply shape_invariant_run. exact nodup_shape. Qed.
+
+  (* ---------------------------------------------------------------- *)
+  (* ConfigChangeId                                                     *)
+
+  Lemma shape_ccid m c i m' : applied_shape m c i m' -> m_ccid m' = i.
+  Proof. intros [? ? ? ->|? ? ? ? ? ? ? ->|? ? ? ->|? ? ? ->|? ? ->]; reflexivity. Qed.
+
+  (* index of the last applied request, [d] when there is none *)
+  Fixpoint last_applied (d : N) (reqs : list req) (vs : list verdict) : N :=
+    match reqs, vs with
+    | r :: reqs', v :: vs' =>
+        last_applied (match v with VApplied => snd r | _ => d end) reqs' vs'
+    | _, _ => d
+    end.
+
+  Lemma ccid_run ordered reqs : forall m,
+    m_ccid (fst (run norm ordered m reqs)) =
+    last_applied (m_ccid m) reqs (snd (run norm ordered m reqs)).
+  Proof.
+    induction reqs as [|r rest IH]; intros m; cbn [run]; [reflexivity|].
+    destruct (step_cases ordered m r) as [(m' & Hs & Hh)|[Hs|Hs]]; rewrite Hs.
+    - specialize (IH m'). destruct (run norm ordered m' rest) as [m2 vs]. cbn [fst snd last_applied] in *.
+      rewrite IH. apply handle_applied_inv, shape_ccid in Hh. rewrite Hh. reflexivity.
+    - specialize (IH m). destruct (run norm ordered m rest) as [m2 vs]. cbn [fst snd last_applied] in *.
+      exact IH.
+    - cbn. destruct rest; reflexivity.
+  Qed.
+
+  (* ---------------------------------------------------------------- *)
+  (* ordered config change                                              *)
+
+  Lemma ordered_stale_id_rejected_proved m c i :
+    cc_init c = false -> cc_ccid c <> m_ccid m ->
+    step norm true m (c, i) = (m, VRejected).
+  Proof.
+    intros Hi Hne. apply not_accepted_rejected. apply accepted_false_by. left.
+    unfold is_up_to_date. rewrite Hi. cbn.
+    destruct (N.eqb_spec (m_ccid m) (cc_ccid c)); congruence.
+  Qed.
+
+  (* ---------------------------------------------------------------- *)
+  (* rejected requests change nothing; panics                           *)
+
+  Lemma step_not_applied_same ordered m r m' v :
+    step norm ordered m r = (m', v) -> v <> VApplied -> m' = m.
+  Proof.
+    intros Hs Hv. destruct (step_cases ordered m r) as [(m1 & Hs1 & _)|[Hs1|Hs1]];
+      rewrite Hs1 in Hs; inversion Hs; subst; congruence.
+  Qed.
+
+  Lemma handle_panics_only_unknown_type ordered m c i t :
+    handle norm ordered m c i = Panicked t ->
+    t = panic_unknown_type /\ is_up_to_date ordered m c = true /\
+    (cc_type c =? cc_add_node)%Z = false /\ (cc_type c =? cc_remove_node)%Z = false /\
+    (cc_type c =? cc_add_non_voting)%Z = false /\ (cc_type c =? cc_add_witness)%Z = false.
+  Proof.
+    unfold handle. destruct (accepted norm ordered m c) eqn:Hacc.
+    2:{ destruct (reject_reason_some _ _ _ Hacc) as [r ->]. discriminate. }
+    destruct (apply_cc m c i) as [m1|t1] eqn:Happ; [discriminate|].
+    intros H; inversion H; subst t1; clear H.
+    apply accepted_true in Hacc.
+    destruct Hacc as (Hup & Hrem & Hex & Hnv & Hnw & Hwn & Hwnv & Hnvw & Hdel & Hinv).
+    unfold is_add_node_as_non_voting, is_add_node_as_witness, is_add_witness_as_node,
+      is_add_witness_as_non_voting, is_add_non_voting_as_witness in *.
+    unfold apply_cc in Happ.
+    destruct (cc_kind_of (cc_type c)) as [Ht|Ht|Ht|Ht|H1 H2 H3 H4].
+    - destruct (tests_add_node _ Ht) as (E1 & E2 & E3 & E4).
+      rewrite ?E1, ?E2, ?E3, ?E4 in *. rewrite Hwn in Happ. discriminate.
+    - destruct (tests_remove_node _ Ht) as (E1 & E2 & E3 & E4).
+      rewrite ?E1, ?E2, ?E3, ?E4 in *. discriminate.
+    - destruct (tests_add_non_voting _ Ht) as (E1 & E2 & E3 & E4).
+      rewrite ?E1, ?E2, ?E3, ?E4 in *. rewrite Hnv in Happ. discriminate.
+    - destruct (tests_add_witness _ Ht) as (E1 & E2 & E3 & E4).
+      rewrite ?E1, ?E2, ?E3, ?E4 in *. rewrite Hnw, Hnvw in Happ. discriminate.
+    - rewrite H1, H2, H3, H4 in Happ. inversion Happ. repeat split; assumption.
+  Qed.
+
+  Definition valid_type (t : Z) : Prop :=
+    t = cc_add_node \/ t = cc_remove_node \/ t = cc_add_non_voting \/ t = cc_add_witness.
+
+  Lemma run_no_panic ordered reqs : forall m,
+    Forall (fun r : req => valid_type (cc_type (fst r))) reqs ->
+    ~ In VPanic (snd (run norm ordered m reqs)) /\
+    length (snd (run norm ordered m reqs)) = length reqs.
+  Proof.
+    induction reqs as [|r rest IH]; intros m Hv; cbn [run]; [cbn; auto|].
+    inversion Hv as [|? ? Hr Hrest]; subst.
+    destruct (step_cases ordered m r) as [(m' & Hs & Hh)|[Hs|Hs]]; rewrite Hs.
+    - destruct (IH m' Hrest) as [IH1 IH2]. destruct (run norm ordered m' rest) as [m2 vs].
+      cbn [snd In length] in *. split; [intros [H|H]; [discriminate|tauto]|congruence].
+    - destruct (IH m Hrest) as [IH1 IH2]. destruct (run norm ordered m rest) as [m2 vs].
+      cbn [snd In length] in *. split; [intros [H|H]; [discriminate|tauto]|congruence].
+    - exfalso. unfold step in Hs.
+      destruct (handle norm ordered m (fst r) (snd r)) eqn:Hh; try discriminate.
+      apply handle_panics_only_unknown_type in Hh.
+      destruct Hh as (_ & _ & H1 & H2 & H3 & H4).
+      destruct Hr as [Hr|[Hr|[Hr|Hr]]]; rewrite Hr in *.
+      + vm_compute in H1. discriminate.
+      + vm_compute in H2. discriminate.
+      + vm_compute in H3. discriminate.
+      + vm_compute in H4. discriminate.
+  Qed.
+
+  (* ---------------------------------------------------------------- *)
+  (* kinds only change by promotion                                     *)
+
+  Lemma amem_of_lookup k v m : alookup k m = Some v -> amem k m = true.
+  Proof. unfold amem. intros ->. reflexivity. Qed.
+
+  Lemma kind_shape m c i m' id k k' :
+    applied_shape m c i m' -> kind_of m id = Some k -> kind_of m' id = Some k' ->
+    k = k' \/
+    (k = NonVoting /\ k' = Voting /\ id = cc_replica c /\ cc_type c = cc_add_node /\
+     exists oa, alookup id (m_nonvotings m) = Some oa /\ address_equal norm oa (cc_addr c) = true).
+  Proof.
+    intros Hs. unfold kind_of.
+    destruct Hs as [Ht Hf Hfa ->|oa Ht HA HN HE HW HR ->|Ht Hf Hfa ->|Ht Hf Hfa ->|Ht Hd ->];
+      cbn [m_addresses m_nonvotings m_witnesses];
+      try unfresh Hf;
+      rewrite ?amem_ainsert, ?amem_adelete;
+      (destruct (N.eqb_spec (cc_replica c) id) as [<-|Hne]; cbn [orb andb negb];
+       [|intros H1 H2; rewrite H1 in H2; inversion H2; auto]).
+    - rewrite HfA, HfN, HfW. discriminate.
+    - rewrite HA, (amem_of_lookup _ _ _ HN). intros H1 H2. inversion H1; inversion H2; subst.
+      right. repeat split; auto. exists oa. auto.
+    - rewrite HfA, HfN, HfW. discriminate.
+    - rewrite HfA, HfN, HfW. discriminate.
+    - discriminate.
+  Qed.
+
+  Lemma kind_left_shape m c i m' id k :
+    applied_shape m c i m' -> kind_of m id = Some k -> kind_of m' id = None ->
+    rmem id (m_removed m') = true.
+  Proof.
+    intros Hs. unfold kind_of.
+    destruct Hs as [Ht Hf Hfa ->|oa Ht HA HN HE HW HR ->|Ht Hf Hfa ->|Ht Hf Hfa ->|Ht Hd ->];
+      cbn [m_addresses m_nonvotings m_witnesses m_removed];
+      try unfresh Hf;
+      rewrite ?amem_ainsert, ?amem_adelete, ?rmem_radd;
+      (destruct (N.eqb_spec (cc_replica c) id) as [<-|Hne]; cbn [orb andb negb];
+       [|intros H1 H2; rewrite H1 in H2; discriminate]).
+    - discriminate.
+    - discriminate.
+    - rewrite HfA, HfN, HfW. discriminate.
+    - rewrite HfA, HfN, HfW. discriminate.
+    - rewrite N.eqb_refl. reflexivity.
+  Qed.
+
+  Lemma run_cons_fst ordered m r rest :
+    fst (run norm ordered m (r :: rest)) =
+    match snd (step norm ordered m r) with
+    | VPanic => fst (step norm ordered m r)
+    | _ => fst (run norm ordered (fst (step norm ordered m r)) rest)
+    end.
+  Proof.
+    cbn [run]. destruct (step norm ordered m r) as [m1 v]. cbn [fst snd].
+    destruct v; try reflexivity; destruct (run norm ordered m1 rest); reflexivity.
+  Qed.
+
+  Lemma kind_run ordered reqs : forall m id k k',
+    removed_disjoint_inv m ->
+    kind_of m id = Some k -> kind_of (fst (run norm ordered m reqs)) id = Some k' ->
+    k = k' \/ (k = NonVoting /\ k' = Voting).
+  Proof.
+    induction reqs as [|r rest IH]; intros m id k k' Hinv Hk Hk'.
+    - cbn in Hk'. left. congruence.
+    - rewrite run_cons_fst in Hk'.
+      destruct (step_cases ordered m r) as [(m1 & Hs & Hh)|[Hs|Hs]]; rewrite Hs in Hk'; cbn [fst snd] in Hk'.
+      + apply handle_applied_inv in Hh.
+        assert (Hinv1 : removed_disjoint_inv m1) by (eapply removed_disjoint_shape; eauto).
+        destruct (kind_of m1 id) as [k1|] eqn:Hk1.
+        * destruct (kind_shape _ _ _ _ _ _ _ Hh Hk Hk1) as [->|(-> & -> & _)].
+          -- eapply IH; eauto.
+          -- destruct (IH m1 id Voting k' Hinv1 Hk1 Hk') as [<-|[? _]]; [right; auto|discriminate].
+        * exfalso. pose proof (kind_left_shape _ _ _ _ _ _ Hh Hk Hk1) as Hr.
+          destruct (removed_disjoint_and_permanent_proved ordered rest m1 Hinv1) as [_ Hp].
+          destruct (Hp id Hr) as [_ Hnone]. congruence.
+      + eapply IH; eauto.
+      + left. congruence.
+  Qed.
+
+  Lemma kind_step ordered m c i m' v id k k' :
+    step norm ordered m (c, i) = (m', v) ->
+    kind_of m id = Some k -> kind_of m' id = Some k' -> k <> k' ->
+    v = VApplied /\ k = NonVoting /\ k' = Voting /\ id = cc_replica c /\ cc_type c = cc_add_node /\
+    exists oa, alookup id (m_nonvotings m) = Some oa /\ address_equal norm oa (cc_addr c) = true.
+  Proof.
+    intros Hs Hk Hk' Hne.
+    destruct (step_cases ordered m (c, i)) as [(m1 & Hs1 & Hh)|[Hs1|Hs1]];
+      rewrite Hs1 in Hs; inversion Hs; subst; try congruence.
+    cbn [fst snd] in Hh. apply handle_applied_inv in Hh.
+    destruct (kind_shape _ _ _ _ _ _ _ Hh Hk Hk') as [?|(? & ? & ? & ? & ?)]; [congruence|].
+    repeat split; auto.
+  Qed.
+
+  (* ---------------------------------------------------------------- *)
+  (* addresses are unique among distinct members                        *)
+
+  Definition all_members (m : membership) : amap :=
+    m_addresses m ++ m_nonvotings m ++ m_witnesses m.
+
+  Definition address_unique_inv (m : membership) : Prop :=
+    forall id1 a1 id2 a2,
+      In (id1, a1) (all_members m) -> In (id2, a2) (all_members m) -> id1 <> id2 ->
+      address_equal norm a1 a2 = false.
+
+  Lemma fresh_addr_all m a :
+    fresh_addr m a -> forall k v, In (k, v) (all_members m) -> address_equal norm a v = false.
+  Proof.
+    intros (H1 & H2 & H3) k v. unfold all_members. rewrite !in_app_iff.
+    rewrite addr_in_use_false in H1, H2, H3. rewrite address_equal_sym.
+    intros [H|[H|H]]; eauto.
+  Qed.
+
+  Lemma shape_members m c i m' x :
+    address_unique_inv m -> applied_shape m c i m' -> In x (all_members m') ->
+    In x (all_members m) \/
+    (x = (cc_replica c, cc_addr c) /\
+     forall id2 a2, In (id2, a2) (all_members m) -> id2 <> cc_replica c ->
+                    address_equal norm (cc_addr c) a2 = false).
+  Proof.
+    intros Hinv Hs.
+    destruct Hs as [Ht Hf Hfa ->|oa Ht HA HN HE HW HR ->|Ht Hf Hfa ->|Ht Hf Hfa ->|Ht Hd ->];
+      unfold all_members; cbn [m_addresses m_nonvotings m_witnesses];
+      rewrite !in_app_iff, ?In_ainsert, ?In_adelete.
+    - intros [[->|[H _]]|[H|H]]; auto.
+      right. split; [reflexivity|]. intros id2 a2 Hin _. eapply fresh_addr_all; eauto.
+    - intros [[->|[H _]]|[[H _]|H]]; auto.
+      right. split; [reflexivity|]. intros id2 a2 Hin Hne.
+      eapply address_equal_false_l; [exact HE|].
+      apply (Hinv (cc_replica c) oa id2 a2); auto.
+      unfold all_members. rewrite !in_app_iff. right; left. apply alookup_In, HN.
+    - intros [H|[[->|[H _]]|H]]; auto.
+      right. split; [reflexivity|]. intros id2 a2 Hin _. eapply fresh_addr_all; eauto.
+    - intros [H|[H|[->|[H _]]]]; auto.
+      right. split; [reflexivity|]. intros id2 a2 Hin _. eapply fresh_addr_all; eauto.
+    - intros [[H _]|[[H _]|[H _]]]; auto.
+  Qed.
+
+  Lemma address_unique_shape m c i m' :
+    address_unique_inv m -> applied_shape m c i m' -> address_unique_inv m'.
+  Proof.
+    intros Hinv Hs id1 a1 id2 a2 H1 H2 Hne.
+    destruct (shape_members _ _ _ _ _ Hinv Hs H1) as [O1|[E1 N1]];
+      destruct (shape_members _ _ _ _ _ Hinv Hs H2) as [O2|[E2 N2]].
+    - eapply Hinv; eauto.
+    - inversion E2; subst. rewrite address_equal_sym. eapply N2; eauto.
+    - inversion E1; subst. eapply N1; eauto.
+    - inversion E1; inversion E2; subst. congruence.
+  Qed.
+
+  Lemma address_unique_run ordered reqs m :
+    address_unique_inv m -> address_unique_inv (fst (run norm ordered m reqs)).
+  Proof. apply shape_invariant_run. exact address_unique_shape. Qed.
+
+  Lemma add_used_address_rejected_proved ordered m c i id2 a2 :
+    is_add_type (cc_type c) = true ->
+    In (id2, a2) (all_members m) -> id2 <> cc_replica c ->
+    address_equal norm a2 (cc_addr c) = true ->
+    address_unique_inv m ->
+    step norm ordered m (c, i) = (m, VRejected).
+  Proof.
+    intros Ht Hin Hne He Hau.
+    destruct (step_cases ordered m (c, i)) as [(m' & Hs & Hh)|[Hs|Hs]]; [|exact Hs|].
+    - exfalso. cbn [fst snd] in Hh. apply handle_applied_inv in Hh.
+      destruct Hh as [Ht' Hf Hfa _|oa Ht' HA HN HE HW HR _|Ht' Hf Hfa _|Ht' Hf Hfa _|Ht' Hd _].
+      + pose proof (fresh_addr_all _ _ Hfa _ _ Hin) as H. rewrite address_equal_sym in H. congruence.
+      + (* promotion: the address is the promoted replica's own, nobody else's *)
+        assert (Hin' : In (cc_replica c, oa) (all_members m)).
+        { unfold all_members. rewrite !in_app_iff. right; left. apply alookup_In, HN. }
+        pose proof (Hau _ _ _ _ Hin Hin' Hne) as H.
+        rewrite address_equal_sym in HE.
+        rewrite (address_equal_trans _ _ _ He HE) in H. discriminate.
+      + pose proof (fresh_addr_all _ _ Hfa _ _ Hin) as H. rewrite address_equal_sym in H. congruence.
+      + pose proof (fresh_addr_all _ _ Hfa _ _ Hin) as H. rewrite address_equal_sym in H. congruence.
+      + rewrite Ht' in Ht. vm_compute in Ht. discriminate.
+    - exfalso. unfold step in Hs. cbn [fst snd] in Hs.
+      destruct (handle norm ordered m c i) eqn:Hh; try discriminate.
+      apply handle_panics_only_unknown_type in Hh.
+      destruct Hh as (_ & _ & H1 & _ & H3 & H4).
+      unfold is_add_type in Ht. rewrite H1, H3, H4 in Ht. discriminate.
+  Qed.
+
+  (* ---------------------------------------------------------------- *)
+  (* a member keeps its (normalised) address for as long as it is a member *)
+
+  Lemma alookup_none_of_amem k m : amem k m = false -> alookup k m = None.
+  Proof. apply amem_alookup_none. Qed.
+
+  Lemma addr_shape m c i m' id a a' :
+    applied_shape m c i m' -> addr_of m id = Some a -> addr_of m' id = Some a' ->
+    address_equal norm a a' = true.
+  Proof.
+    intros Hs. unfold addr_of.
+    destruct Hs as [Ht Hf Hfa ->|oa Ht HA HN HE HW HR ->|Ht Hf Hfa ->|Ht Hf Hfa ->|Ht Hd ->];
+      cbn [m_addresses m_nonvotings m_witnesses];
+      try unfresh Hf;
+      rewrite ?alookup_ainsert, ?alookup_adelete;
+      (destruct (N.eqb_spec (cc_replica c) id) as [<-|Hne];
+       [|intros H1 H2; rewrite H1 in H2; inversion H2; apply address_equal_refl]).
+    - rewrite (alookup_none_of_amem _ _ HfA), (alookup_none_of_amem _ _ HfN), (alookup_none_of_amem _ _ HfW).
+      discriminate.
+    - rewrite (alookup_none_of_amem _ _ HA), HN. intros H1 H2. inversion H1; inversion H2; subst. exact HE.
+    - rewrite (alookup_none_of_amem _ _ HfA), (alookup_none_of_amem _ _ HfN), (alookup_none_of_amem _ _ HfW).
+      discriminate.
+    - rewrite (alookup_none_of_amem _ _ HfA), (alookup_none_of_amem _ _ HfN), (alookup_none_of_amem _ _ HfW).
+      discriminate.
+    - discriminate.
+  Qed.
+
+  Lemma addr_of_kind m id : (exists a, addr_of m id = Some a) <-> (exists k, kind_of m id = Some k).
+  Proof.
+    unfold addr_of, kind_of, amem.
+    destruct (alookup id (m_addresses m)); [split; eauto|].
+    destruct (alookup id (m_nonvotings m)); [split; eauto|].
+    destruct (alookup id (m_witnesses m)); [split; eauto|].
+    split; intros [? ?]; discriminate.
+  Qed.
+
+  Lemma addr_run ordered reqs : forall m id a a',
+    removed_disjoint_inv m ->
+    addr_of m id = Some a -> addr_of (fst (run norm ordered m reqs)) id = Some a' ->
+    address_equal norm a a' = true.
+  Proof.
+    induction reqs as [|r rest IH]; intros m id a a' Hinv Ha Ha'.
+    - cbn in Ha'. rewrite Ha in Ha'. inversion Ha'. apply address_equal_refl.
+    - rewrite run_cons_fst in Ha'.
+      destruct (step_cases ordered m r) as [(m1 & Hs & Hh)|[Hs|Hs]]; rewrite Hs in Ha'; cbn [fst snd] in Ha'.
+      + apply handle_applied_inv in Hh.
+        assert (Hinv1 : removed_disjoint_inv m1) by (eapply removed_disjoint_shape; eauto).
+        destruct (addr_of m1 id) as [a1|] eqn:Ha1.
+        * eapply address_equal_trans; [eapply addr_shape; eauto|eapply IH; eauto].
+        * exfalso.
+          assert (Hk : exists k, kind_of m id = Some k) by (apply addr_of_kind; eauto).
+          destruct Hk as [k Hk].
+          assert (Hk1 : kind_of m1 id = None).
+          { destruct (kind_of m1 id) eqn:E; [|reflexivity].
+            assert (Hx : exists a, addr_of m1 id = Some a) by (apply addr_of_kind; eauto).
+            destruct Hx as [? Hx]. congruence. }
+          pose proof (kind_left_shape _ _ _ _ _ _ Hh Hk Hk1) as Hr.
+          destruct (removed_disjoint_and_permanent_proved ordered rest m1 Hinv1) as [_ Hp].
+          destruct (Hp id Hr) as [_ Hnone].
+          assert (Hx : exists k, kind_of (fst (run norm ordered m1 rest)) id = Some k) by (apply addr_of_kind; eauto).
+          destruct Hx as [? Hx]. congruence.
+      + eapply IH; eauto.
+      + rewrite Ha in Ha'. inversion Ha'. apply address_equal_refl.
+  Qed.
+
+  (* ---------------------------------------------------------------- *)
+  (* cutting the log at a snapshot                                      *)
+
+  Definition has_panic (vs : list verdict) : bool :=
+    existsb (fun v => match v with VPanic => true | _ => false end) vs.
+
+  Lemma run_app ordered l1 : forall l2 m,
+    run norm ordered m (l1 ++ l2) =
+    let '(m1, v1) := run norm ordered m l1 in
+    if has_panic v1 then (m1, v1)
+    else let '(m2, v2) := run norm ordered (m_set (m_get m1)) l2 in (m2, v1 ++ v2).
+  Proof.
+    induction l1 as [|r rest IH]; intros l2 m.
+    - cbn. unfold m_set, m_get. destruct (run norm ordered m l2); reflexivity.
+    - cbn [app run]. destruct (step norm ordered m r) as [m1 v].
+      destruct v.
+      + rewrite IH. destruct (run norm ordered m1 rest) as [m1' v1]. cbn [has_panic existsb orb].
+        fold (has_panic v1). destruct (has_panic v1); [reflexivity|].
+        destruct (run norm ordered (m_set (m_get m1')) l2); reflexivity.
+      + rewrite IH. destruct (run norm ordered m1 rest) as [m1' v1]. cbn [has_panic existsb orb].
+        fold (has_panic v1). destruct (has_panic v1); [reflexivity|].
+        destruct (run norm ordered (m_set (m_get m1')) l2); reflexivity.
+      + reflexivity.
+  Qed.
+
+  (* two replicas (whatever their shard / replica id: the rules do not depend on
+     them) that start from the same membership and apply the same log *)
+  Lemma outcome_deterministic ordered reqs m1 m2 :
+    m1 = m2 -> run norm ordered m1 reqs = run norm ordered m2 reqs.
+  Proof. intros ->. reflexivity. Qed.
+
+  (* ---------------------------------------------------------------- *)
+  (* ordered config change: concurrent requests built on the same membership
+     view carry the same ConfigChangeID; at most one of them is applied     *)
+
+  Fixpoint idx_increasing (lo : N) (reqs : list req) : Prop :=
+    match reqs with
+    | [] => True
+    | r :: rest => lo < snd r /\ idx_increasing (snd r) rest
+    end.
+
+  (* ConfigChangeIDs carried by the applied requests that are not Initialize *)
+  Fixpoint applied_ccids (reqs : list req) (vs : list verdict) : list N :=
+    match reqs, vs with
+    | r :: reqs', v :: vs' =>
+        match v with
+        | VApplied => if cc_init (fst r) then applied_ccids reqs' vs'
+                      else cc_ccid (fst r) :: applied_ccids reqs' vs'
+        | _ => applied_ccids reqs' vs'
+        end
+    | _, _ => []
+    end.
+
+  Lemma up_to_date_ordered m c :
+    is_up_to_date true m c = true -> cc_init c = false -> m_ccid m = cc_ccid c.
+  Proof.
+    unfold is_up_to_date. intros H Hi. rewrite Hi in H. cbn in H.
+    destruct (N.eqb_spec (m_ccid m) (cc_ccid c)); [assumption|discriminate].
+  Qed.
+
+  Lemma one_winner_aux reqs : forall m lo,
+    m_ccid m <= lo -> idx_increasing lo reqs ->
+    NoDup (applied_ccids reqs (snd (run norm true m reqs))) /\
+    Forall (fun x => m_ccid m <= x) (applied_ccids reqs (snd (run norm true m reqs))).
+  Proof.
+    induction reqs as [|r rest IH]; intros m lo Hlo Hidx; cbn [run].
+    - cbn. split; constructor.
+    - destruct Hidx as [Hlt Hidx].
+      destruct (step_cases true m r) as [(m1 & Hs & Hh)|[Hs|Hs]]; rewrite Hs.
+      + pose proof (handle_applied_up_to_date _ _ _ _ _ Hh) as Hup.
+        apply handle_applied_inv, shape_ccid in Hh.
+        assert (Hlo1 : m_ccid m1 <= snd r) by lia.
+        destruct (IH m1 (snd r) Hlo1 Hidx) as [IHnd IHall].
+        destruct (run norm true m1 rest) as [m2 vs]. cbn [snd applied_ccids] in *.
+        assert (Hall' : Forall (fun x => m_ccid m <= x) (applied_ccids rest vs)).
+        { eapply Forall_impl; [|exact IHall]. cbn. intros x Hx. lia. }
+        destruct (cc_init (fst r)) eqn:Hinit; [split; assumption|].
+        pose proof (up_to_date_ordered _ _ Hup Hinit) as Heq.
+        split.
+        * constructor; [|exact IHnd]. intros Hin.
+          rewrite Forall_forall in IHall. specialize (IHall _ Hin). lia.
+        * constructor; [lia|exact Hall'].
+      + assert (Hlo1 : m_ccid m <= snd r) by lia.
+        destruct (IH m (snd r) Hlo1 Hidx) as [IHnd IHall].
+        destruct (run norm true m rest) as [m2 vs]. cbn [snd applied_ccids] in *.
+        split; assumption.
+      + cbn. destruct rest; split; constructor.
+  Qed.
+
+  Lemma ordered_one_winner_per_ccid_proved reqs m lo :
+    m_ccid m <= lo -> idx_increasing lo reqs ->
+    NoDup (applied_ccids reqs (snd (run norm true m reqs))).
+  Proof. intros H1 H2. apply (one_winner_aux reqs m lo H1 H2). Qed.
+
+  (* ---------------------------------------------------------------- *)
+  (* the conjunction of handleConfigChange as a table, to be compared with the
+     conjunct list genmodel extracts from the source                       *)
+
+  Definition rule_table : list (bool * string * (bool -> membership -> cc -> bool)) :=
+    [ (false, "isUpToDate"%string, fun o m c => is_up_to_date o m c);
+      (true, "isAddRemovedNode"%string, fun _ m c => is_add_removed_node m c);
+      (true, "isAddExistingMember"%string, fun _ m c => is_add_existing_member norm m c);
+      (true, "isAddNodeAsNonVoting"%string, fun _ m c => is_add_node_as_non_voting m c);
+      (true, "isAddNodeAsWitness"%string, fun _ m c => is_add_node_as_witness m c);
+      (true, "isAddWitnessAsNode"%string, fun _ m c => is_add_witness_as_node m c);
+      (true, "isAddWitnessAsNonVoting"%string, fun _ m c => is_add_witness_as_non_voting m c);
+      (true, "isAddNonVotingAsWitness"%string, fun _ m c => is_add_non_voting_as_witness m c);
+      (true, "isDeleteOnlyNode"%string, fun _ m c => is_delete_only_node m c);
+      (true, "isInvalidNonVotingPromotion"%string, fun _ m c => is_invalid_non_voting_promotion norm m c) ].
+
+  Definition eval_rule (o : bool) (m : membership) (c : cc)
+             (r : bool * string * (bool -> membership -> cc -> bool)) : bool :=
+    let '(neg, _, p) := r in if neg then negb (p o m c) else p o m c.
+
+  Lemma accepted_is_rule_table ordered m c :
+    accepted norm ordered m c = forallb (eval_rule ordered m c) rule_table /\
+    rule_vector norm ordered m c = map (fun r => snd r ordered m c) rule_table.
+  Proof.
+    split; [|reflexivity].
+    unfold accepted, rule_table. cbn [forallb eval_rule].
+    destruct (is_up_to_date ordered m c); cbn [negb andb]; [|reflexivity].
+    destruct (is_add_removed_node m c); cbn [negb andb]; [reflexivity|].
+    destruct (is_add_existing_member norm m c); cbn [negb andb]; [reflexivity|].
+    destruct (is_add_node_as_non_voting m c); cbn [negb andb]; [reflexivity|].
+    destruct (is_add_node_as_witness m c); cbn [negb andb]; [reflexivity|].
+    destruct (is_add_witness_as_node m c); cbn [negb andb]; [reflexivity|].
+    destruct (is_add_witness_as_non_voting m c); cbn [negb andb]; [reflexivity|].
+    destruct (is_add_non_voting_as_witness m c); cbn [negb andb]; [reflexivity|].
+    destruct (is_delete_only_node m c); cbn [negb andb]; [reflexivity|].
+    destruct (is_invalid_non_voting_promotion norm m c); reflexivity.
+  Qed.
+
+  Lemma rule_table_matches_source :
+    map (fun r : bool * string * (bool -> membership -> cc -> bool) => fst r) rule_table = accepted_conjuncts.
+  Proof. reflexivity. Qed.
 End WithNorm.
+
+Lemma source_shape_facts :
+  apply_only_when_accepted = true /\ address_equal_is_equalfold_of_trimspace = true.
+Proof. split; reflexivity. Qed.
+
+(* ------------------------------------------------------------------ *)
+(* a concrete non-trivial state meeting every invariant (non-vacuity)   *)
+
+Definition A (s : list N) : addr := s.
+Definition sample_reqs : list req :=
+  [ (mkCC 0 cc_add_node 1 [104; 49] true, 1);          (* bootstrap "h1" *)
+    (mkCC 0 cc_add_node 2 [104; 50] true, 2);          (* bootstrap "h2" *)
+    (mkCC 2 cc_add_non_voting 3 [72; 51; 32] false, 3);  (* non-voting "H3 " *)
+    (mkCC 3 cc_add_witness 4 [104; 52] false, 4);      (* witness "h4" *)
+    (mkCC 4 cc_remove_node 2 [] false, 5);             (* remove 2 *)
+    (mkCC 5 cc_add_node 3 [32; 104; 51] false, 6);     (* promote 3 with " h3" *)
+    (mkCC 5 cc_add_node 5 [104; 53] false, 7);         (* stale id: rejected when ordered *)
+    (mkCC 6 cc_add_node 2 [104; 54] false, 8);         (* removed id: rejected *)
+    (mkCC 6 cc_add_node 6 [72; 49] false, 9);          (* address "H1" in use: rejected *)
+    (mkCC 6 cc_add_non_voting 1 [104; 55] false, 10);  (* voting -> non-voting: rejected *)
+    (mkCC 6 cc_add_node 4 [104; 52] false, 11) ].      (* witness -> voting: rejected *)
+
+Definition sample_state : membership := fst (run norm_ascii true empty_membership sample_reqs).
+
+Lemma empty_invariants norm :
+  kinds_disjoint_inv empty_membership /\ removed_disjoint_inv empty_membership /\
+  address_unique_inv norm empty_membership /\ nodup_inv empty_membership.
+Proof.
+  repeat split; try (intros id; reflexivity); try constructor.
+  intros id1 a1 id2 a2 H. inversion H.
+Qed.
+
+Lemma sample_state_invariants :
+  kinds_disjoint_inv sample_state /\ removed_disjoint_inv sample_state /\
+  address_unique_inv norm_ascii sample_state /\ nodup_inv sample_state /\ voters_inv sample_state.
+Proof.
+  destruct (empty_invariants norm_ascii) as (H1 & H2 & H3 & H4).
+  unfold sample_state.
+  split; [apply kinds_disjoint_run; exact H1|].
+  split; [apply removed_disjoint_and_permanent_proved; exact H2|].
+  split; [apply address_unique_run; exact H3|].
+  split; [apply nodup_run; exact H4|].
+  pose proof (nodup_run norm_ascii true sample_reqs empty_membership H4) as (Hn & _ & _).
+  split; [exact Hn|]. vm_compute. discriminate.
+Qed.
